@@ -37,6 +37,12 @@ for d in sorted(os.listdir(root)):
             l = l.strip()
             if l:
                 detect.append(json.loads(l))
+    # a later run of the same check and tier (after the check was extended) supersedes an earlier one
+    last = {}
+    for x in detect:
+        last[(x['check'], x.get('tier', 'quick'))] = x
+    history = detect
+    detect = list(last.values())
     caught = [x for x in detect if x.get('exit') == 1]
     missed = [x for x in detect if x.get('exit') == 0]
     meta = {
@@ -48,6 +54,7 @@ for d in sorted(os.listdir(root)):
         'origin': 'fresh sub-agent given only the property text and a scratch worktree; confirmed in a scratch worktree by seed_confirm.sh',
         'detected_by': [{'check': x['check'], 'tier': x.get('tier', 'quick'), 'rules': [r for r in x.get('rules', '').split(',') if r], 'runs': x.get('runs', ''), 'wall_s': x.get('wall_s')} for x in caught],
         'not_detected_by': [{'check': x['check'], 'tier': x.get('tier', 'quick'), 'runs': x.get('runs', ''), 'wall_s': x.get('wall_s')} for x in missed],
+        'all_trials': history,
         'apply': 'git -C /repo apply /verif/seeded/%s/patch.diff' % d, 'undo': 'git -C /repo checkout -- .',
     }
     json.dump(meta, open(os.path.join(p, 'meta.json'), 'w'), indent=1)
